@@ -366,6 +366,8 @@ def dict_items(world, placement):
     for k, n in enumerate(world['names']):
         t = n['t']
         items.append((P.name_id(n['b'], k), '=' + R.ref(t, None)))
+    for k, n in enumerate(world.get('vnames', [])):
+        items.append((P.vname_id(n['b'], k), R.formula(n['f'], (n['b'], 0))))
     return items
 
 
@@ -433,6 +435,12 @@ def xlsx_books(world, placement, sheet_orders=None, styled=True,
                                        P.rect_a1(tb, ts, r1, c1, r2, c2, 15))
             nm = placement['names'][k]
             wb.defined_names[nm] = DefinedName(nm, attr_text=text)
+        for k, n in enumerate(world.get('vnames', [])):
+            if n['b'] != b:
+                continue
+            R = Renderer(world, P, 'file', None)
+            wb.defined_names[P.vname(k)] = DefinedName(
+                P.vname(k), attr_text=R.render(n['f'], (b, 0)))
         bio = io.BytesIO()
         wb.save(bio)
         out[P.file(b)] = bio.getvalue()
